@@ -347,6 +347,47 @@ Proof.
   - destruct (itf_marks _ _ _); [symmetry; apply app_nil_r|reflexivity].
 Qed.
 
+(* inside the hypotheses the class merge returns a class *)
+Definition inner_agree (ci si : list (str * N)) : Prop :=
+  forall a b, In a ci -> In b si -> fst a = fst b -> a = b.
+
+Lemma merge_inner_ok ci si : inner_agree ci si -> exists l, merge_inner ci si = OK l.
+Proof.
+  intros IA. unfold merge_inner, merge_slice. apply collect_ok. intros k Hk.
+  pose proof (mpo_res_mpo str_eqb str_eqb_ok (map fst ci) (map fst si)) as R.
+  assert (Hin : In k (map fst ci) \/ In k (map fst si)).
+  { pose proof (mpo_perm str_eqb str_eqb_ok _ _ _ R) as P. apply (Permutation_in _ P) in Hk.
+    apply in_app_or in Hk. destruct Hk as [Hk|Hk]; [left; exact Hk|right]. apply filter_In in Hk. exact (proj1 Hk). }
+  destruct (find_last str_eqb fst k ci) as [ec|] eqn:Fc, (find_last str_eqb fst k si) as [es|] eqn:Fs.
+  - destruct (find_last_Some str_eqb str_eqb_ok fst k ci ec Fc) as (Hec & Kc).
+    destruct (find_last_Some str_eqb str_eqb_ok fst k si es Fs) as (Hes & Ks).
+    rewrite (IA ec es Hec Hes (eq_trans Kc (eq_sym Ks))).
+    unfold inner_eqb, peqb. rewrite str_eqb_refl, N.eqb_refl. eexists; reflexivity.
+  - eexists; reflexivity.
+  - eexists; reflexivity.
+  - exfalso. apply (find_last_None str_eqb str_eqb_ok) in Fc, Fs. tauto.
+Qed.
+
+Definition classes_agree (c s : aclass) : Prop :=
+  c_version c = c_version s /\ c_access c = c_access s /\ c_name c = c_name s /\ c_super c = c_super s /\
+  c_depr c = c_depr s /\ c_synth c = c_synth s /\
+  flags_agree (c_fields c) (c_fields s) /\ flags_agree (c_methods c) (c_methods s) /\
+  inner_agree (unwrap_or_default (c_inner c)) (unwrap_or_default (c_inner s)).
+
+Lemma oeqb_str_refl (o : option str) : oeqb str_eqb o o = true.
+Proof. destruct o; cbn; [apply str_eqb_refl|reflexivity]. Qed.
+
+Theorem class_merge_ok c s : classes_agree c s -> exists m, class_merge c s = OK m.
+Proof.
+  intros (H1 & H2 & H3 & H4 & H5 & H6 & H7 & H8 & H9).
+  unfold class_merge, from_client, merge_eq. rewrite <- H1, <- H2, <- H3, <- H4, <- H5, <- H6.
+  rewrite !N.eqb_refl, str_eqb_refl, oeqb_str_refl, !eqb_reflx. cbn [obind].
+  destruct (merge_members_ok _ _ H7) as (fs & ->). cbn [obind].
+  destruct (merge_members_ok _ _ H8) as (ms & ->). cbn [obind].
+  destruct (merge_inner_ok _ _ H9) as (inn & ->). cbn [obind].
+  eexists; reflexivity.
+Qed.
+
 (* the interface part of the property in one statement *)
 Theorem interfaces_marked c s m :
   NoDup (c_itfs c) -> NoDup (c_itfs s) -> class_merge c s = OK m ->
